@@ -4,6 +4,7 @@ namespace SdnsVerif.Gen.C11
 def query_timeout_default_ms : Nat := 10000
 def regroup_limit : Nat := 1
 def rw_table : List (List Nat) := [[0, 1, 0, 1], [0, 0, 0, 0], [0, 1, 0, 1], [0, 1, 0, 1], [0, 1, 0, 1], [0, 0, 0, 0], [0, 1, 0, 1], [0, 0, 0, 0], [1, 0, 1, 1], [1, 0, 1, 1], [1, 0, 1, 1], [1, 0, 1, 1], [1, 0, 1, 1], [1, 0, 0, 1], [1, 0, 1, 1], [1, 0, 0, 1]]
+def tcp_write_wait_ms : Nat := 2000
 def wg_timeout_ms : Nat := 15000
 
 end SdnsVerif.Gen.C11
